@@ -542,8 +542,11 @@ class Worker:
         preprocess = getattr(self, 'preprocess', None)
 
         while True:
-            if buffer.full():
-                with buffer._not_full:
+            with buffer._not_full:
+                while buffer.full():
+                    # Test under the lock and re-test after every wake-up: if the test were made
+                    # outside the lock, the consumer could drain the buffer (sending its notifications
+                    # to nobody) before this thread starts waiting, and then nobody would ever wake it.
                     buffer._not_full.wait()
 
             # Multiple workers in separate processes may be competing
